@@ -172,6 +172,30 @@ class DocGen:
                 wrapper = rng.choice(["array", "array", "anyOf"])
                 root["properties"][name] = ({"type": "array", "items": inner} if wrapper == "array"
                                             else {"anyOf": [inner, {"type": "null"}]})
+        if isinstance(root.get("properties"), dict):
+            roll = rng.random()
+            if roll < 0.10:
+                # numbering that runs past one digit (and past 32): many DIFFERENT objects under one title
+                count = rng.choice([12, 13, 34, 40])
+                only_definitions = rng.random() < 0.5
+                for idx in range(count):
+                    member = {"type": "object", "title": f"Entry {self.serial}", "required": [f"f{idx}"],
+                              "properties": {f"f{idx}": {"type": "integer"}}}
+                    if only_definitions:
+                        defs[f"e{idx:02d}"] = member      # reachable through "definitions" alone
+                    else:
+                        root["properties"][f"m{idx:02d}"] = member
+            elif roll < 0.17:
+                # one keyword holding more members than anything hand-written
+                root["properties"]["big_enum"] = {"enum": [f"v{idx:03d}" if idx % 2 else idx for idx in range(70)]}
+                root["properties"]["big_tuple"] = {"type": "array", "items": [{"const": idx} for idx in range(66)]}
+            elif roll < 0.24:
+                # names longer than any line limit, sharing a long prefix, with separators a splitter may trip on
+                prefix = "http://example.com/claims/" + "segment-" * 8
+                for tail in ("alpha", "beta", "gamma, delta", "x" * 90):
+                    root["properties"][prefix + tail] = rng.choice([{"type": "string"}, {"type": "integer"}])
+                root.setdefault("required", [])
+                root["required"] = list(dict.fromkeys(list(root["required"]) + [prefix + "beta"]))
         if defs:
             root["definitions"] = defs
         files[main] = root
